@@ -25,7 +25,7 @@ var _ Modifier = (*concurrencyModifier)(nil)
 // a cff.Concurrency call.
 func NewConcurrencyModifier(fset *token.FileSet, n ast.Expr, concurrency ast.Expr) Modifier {
 	return &concurrencyModifier{
-		Position:    fset.Position(n.Pos()),
+		Position:    fset.PositionFor(n.Pos(), false /* adjusted */),
 		expr:        n,
 		concurrency: concurrency,
 	}
